@@ -86,7 +86,8 @@ Print Assumptions C06_static_full_parsed.
    (0, 0).  No bound on length or nesting; a nested expression is an out-of-line
    body that must itself keep the discipline and, as an operand, is one value;
    C06-K2 (an operand position without a value) cannot occur in the fragment. *)
-Theorem C06_balanced_operator_expressions : forall toks R, Pratt.pratt toks = Some R ->
+Theorem C06_balanced_operator_expressions : forall toks R,
+  Pratt.no_separators toks = true -> Pratt.pratt toks = Some R ->
   exists root nodes t,
     parse toks = Ok (root, nodes) /\ Compile.tree_of nodes root = Some t /\
     (~ Known_C06_K1 t -> ~ Known_C06_K3 t -> ~ Known_C06_K4 t ->
@@ -100,7 +101,8 @@ Print Assumptions C06_balanced_operator_expressions.
 (* ... and a conditional is never the left operand of && / || there (the class
    C05-K2 of the well-formedness theorems is outside the fragment): operators
    taken later bind no tighter than the root of what they extend *)
-Theorem C06_operator_expressions_no_K2 : forall toks R, Pratt.pratt toks = Some R ->
+Theorem C06_operator_expressions_no_K2 : forall toks R,
+  Pratt.no_separators toks = true -> Pratt.pratt toks = Some R ->
   exists root nodes t, parse toks = Ok (root, nodes) /\ Compile.tree_of nodes root = Some t /\ drops_arms t = false.
 Proof. exact C06_operator_expressions_no_K2_proof. Qed.
 Print Assumptions C06_operator_expressions_no_K2.
